@@ -91,7 +91,7 @@ def run(tier, seed):
     rep = common.Report(PROP, tier, seed, LEVEL)
     p = base.tier_params(tier)
     sums = {}
-    for fl, reduced in base.flavours_for(tier, seed, (0, 1, 2, 3, 5, 6)):
+    for fl, reduced in base.flavours_for(tier, seed, (0, 1, 2, 3, 5, 6), thorough_full=(0, 1)):
         for cls in ('DynGraph', 'DynDiGraph'):
             for removal in (True, False):
                 conf = U.conf_make(cls, removal, fl, base.window_for(tier, fl, p['w']))
